@@ -8,7 +8,7 @@ import (
 	"verif/engine/symex"
 )
 
-var allPatterns = []string{"./template", "./template_funcs", "./config", "./internal", "./internal/cmd"}
+var allPatterns = []string{"./template", "./template_funcs", "./config", "./internal", "./internal/cmd", "./tools/cmd"}
 
 func repoDir() string {
 	if d := os.Getenv("VERIF_REPO"); d != "" {
